@@ -14,6 +14,8 @@ import itertools
 
 import networkx as nx
 
+from . import drv  # noqa: F401  (puts the tree under test first on sys.path)
+
 
 def dags(k, max_edges):
     """edge lists over nodes 0..k-1 with i<j, every node reachable from 0, at most max_edges edges"""
